@@ -334,18 +334,19 @@ def rule_global(ctx):
     r = RuleResult("C17-GLOBAL", "no direct use of the global generators", 10)
     for path in scope_paths(ctx):
         m = ctx.p.module(path)
-        uses_random = "random" in m.imports and m.imports["random"][0] == "random"
         for f in m.all_funcs:
             hits = []
+            # local names bound to the stdlib ``random`` module
+            rnames = {k for k, v in m.imports.items() if v == ("random", None)}
+            rnames |= {k for k, v in ctx.p.local_imports(f).items() if v == ("random", None)}
+            rnames -= set(ctx.r.local_assignments(f)) | set(f.params)
             for n in walk_local(f.node):
                 if isinstance(n, ast.Attribute):
                     d = dotted(n)
                     if not d:
                         continue
                     parts = d.split(".")
-                    if parts[0] == "random" and uses_random and len(parts) == 2 and \
-                            "random" not in ctx.r.local_assignments(f) and \
-                            "random" not in f.params:
+                    if parts[0] in rnames and len(parts) == 2:
                         if parts[1] not in ("Random", "SystemRandom"):
                             hits.append((n, d))
                     if parts[:2] in (["np", "random"], ["numpy", "random"]) and len(parts) == 3:
@@ -402,7 +403,7 @@ def _is_set_expr(ctx, f, e, depth=0):
     return False
 
 
-LABELISH = ("term", "inputs", "output", "legs", "inds", "ind", "ix", "size_dict", "edges",
+LABELISH = ("term", "inputs", "output", "legs", "inds", "ind", "ix", "size_dict", "edge",
             "involved", "indices", "eq", "lhs", "subscripts", "appeared", "sliced")
 INTISH = ("node", "nodes", "range", "enumerate", "ssa", "scon", "subgraph", "group", "leaves",
           "remaining", "spine", "neighb", "region", "visitors", "ids", "seen_nodes")
@@ -456,6 +457,8 @@ def _consumer(func, node, loop=None):
                 return "insensitive", f"consumed by {d}()"
             if d in ("tuple", "list", "join", "".join.__name__) or d.endswith(".join"):
                 return "sensitive", f"materialised in iteration order by {d}()"
+        if isinstance(comp, ast.ListComp):
+            return "sensitive", "list built in iteration order"
         return "unknown", "comprehension"
     if isinstance(par, ast.Call):
         d = dotted(par.func) or (par.func.attr if isinstance(par.func, ast.Attribute) else "")
